@@ -22,3 +22,4 @@ import Solvor.Cut.Theorems
 #print axioms Solvor.Cut.bp_optimal_core
 #print axioms Solvor.Cut.bp_mirror_optimal_of_duals
 #print axioms Solvor.Cut.bp_custom_mirror_optimal_of_duals
+#print axioms Solvor.Cut.master_lp_duals_eps_feasible
